@@ -3,13 +3,13 @@ import vlib
 from props import common, mix, disp
 
 THM = "NextestModel.Thm.C17"
-GEN = []
-CHECK_MODULES = ["NextestModel.Lemmas.Junit", "NextestModel.Model.Junit"]
+GEN = ["tables"]
+CHECK_MODULES = ["NextestModel.Lemmas.Junit", "NextestModel.Model.Junit", "NextestModel.Model.XmlText"]
 TRUSTED = ["model: Model/Dispatcher (RunStats bookkeeping) and Model/Junit (MetadataJunit::write_event: suites, cases, status, reruns, store rule; quick-junit's add_test_case counters), both corresponded in-process",
            "guarded hooks ExecutionStatuses::verif_new, RunStats::verif_on_test_finished / verif_on_setup_script_finished, config::VerifScriptId (constructors / callers of crate-private functions)",
-           "quick-junit's XML serialisation and character filtering are third-party: exercised (the report is parsed back with quick-xml in-process and with expat end-to-end), not modelled"]
+           "quick-junit's character filter (XmlString::new, read from the release Cargo.lock pins) and junit.rs's xml_string are regenerated tables (Gen.xmlStringStripped, Gen.junitNonchars*, Gen.junitSetterArms); strip-ansi-escapes is a parameter of the model of which only 'removes characters, adds none' is assumed (its result on each generated text is handed to the model); quick-junit's XML serialisation (escaping of markup) is third-party: exercised (the report is parsed back with quick-xml in-process and with expat end-to-end), not modelled"]
 ASSUMPTIONS = ["every attempt of a finished test before its last one failed (the executor's attempt loop stops at the first success): WFAttempts; the aggregator's `unreachable!` is outside it (junit_no_panic)",
-               "XML character validity of stored output is checked end-to-end on a fixed hostile output (family mix), not proved"]
+               "xml_text_valid is about the texts set through TestcaseOrRerun (message, description, system-out, system-err); names and attribute values (binary ids, test names) go through XmlString::new only"]
 
 
 def parse_stats(s):
@@ -99,17 +99,28 @@ def run_junit(seed, tier, replay=None):
     items = [([b, args, idx], req, impl) for (b, args, idx, req, impl) in r.cases]
     mism, _ = common.compare(items, None)
     violations, detail = [], []
+    def uhx(x):
+        try: return bytes.fromhex(x).decode("utf-8", "replace") if x not in ("-", ".") else ""
+        except ValueError: return x
     for m in mism:
+        if m["req"].startswith("xmltext "):
+            raw = uhx(m["req"].split(" ")[1])
+            got = m["impl"]
+            if got.startswith("xml-error:"): what = f"the JUnit report is not well-formed XML ({uhx(got.split(':', 1)[1])[:200]}) when a failing test's stored output is {raw!r}"
+            elif got.endswith(";!non-xml-char"): what = f"the JUnit report holds a character XML 1.0 forbids when a failing test's stored output is {raw!r}"
+            else: what = f"stored output in the JUnit report differs from the test's output minus the characters XML forbids: output {raw!r}, report has (system-out;system-err) {';'.join(repr(uhx(x)) for x in got.split(';'))}, expected {uhx(m['model'].split(';')[0])!r}"
+            violations.append({"what": what, "payload": {"stream": m["origin"][:2], "line_index": m["origin"][2], "request": m["req"], "impl": m["impl"], "spec": m["model"]}, "kind": "junit-xmltext"})
+            continue
         ip, mp = m["impl"].split(" ## "), m["model"].split(" ## ")
         concrete = len(ip) != 3 or len(mp) != 3 or strip_types(ip[0]) != strip_types(mp[0]) or ip[1:] != mp[1:]
         if concrete:
             violations.append({"what": describe_junit(m["req"], m["impl"], m["model"]), "payload": {"stream": m["origin"][:2], "line_index": m["origin"][2], "request": m["req"], "impl": m["impl"], "spec": m["model"]}, "kind": "junit-model"})
         else:
             detail.append({"stream": m["origin"][:2], "line_index": m["origin"][2], "request": m["req"], "impl": m["impl"], "model": m["model"], "note": "only the `type` attribute texts differ"})
-    nt = {q for _, q, _ in items if q.count("T:") + q.count("S:") >= 2}
+    nt = {q for _, q, i in items if (q.startswith("junit ") and q.count("T:") + q.count("S:") >= 2) or (q.startswith("xmltext ") and i.split(";")[0] != q.split(" ")[1])}
     return {"evaluations": len(items), "distinct_nontrivial": len(nt),
-            "rule": "p_junit: event lists (0-9 events: finished tests of 4 binaries with 1-4 attempts whose non-final attempts failed, finished setup scripts, other events; store-success/failure-output drawn per event) through the real Reporter; the JUnit file is parsed back (suites, counters, cases, status elements, reruns with the attempt each carries, stored output attributed by marker), the Summary line is read from the display reporter and RunStats folded by the real on_test_finished; all three compared with Model/Junit; non-trivial = at least two finished units",
-            "samples": [f"{q[:200]}  =>  {i[:200]}" for (_, q, i) in items[:3]], "traces": len(items), "dist": {"junit:" + k: v for k, v in r.dist.items()},
+            "rule": "p_junit: event lists (0-9 events: finished tests of 4 binaries with 1-4 attempts whose non-final attempts failed, finished setup scripts, other events; store-success/failure-output drawn per event) through the real Reporter; the JUnit file is parsed back (suites, counters, cases, status elements, reruns with the attempt each carries, stored output attributed by marker), the Summary line is read from the display reporter and RunStats folded by the real on_test_finished; all three compared with Model/Junit; then as many `xmltext` cases: a failing test whose stored stdout and stderr are a hostile text (0-14 pieces drawn from markup characters, C0 and C1 controls, ANSI escape sequences, U+FFFE/U+FFFF and other edge code points, invalid UTF-8) through the real Reporter, the report parsed back, every character of the document checked to be an XML Char, and the stored text compared with Model/XmlText.xmlString (the ANSI stripper's result on that text handed to the model as a table); non-trivial = at least two finished units, or a hostile text the filters change",
+            "samples": [f"{q[:200]}  =>  {i[:200]}" for (_, q, i) in items[:3] + [x for x in items if x[1].startswith("xmltext ")][3:5]], "traces": len(items), "dist": {"junit:" + k: v for k, v in r.dist.items()},
             "violations": violations, "broken": r.broken, "impl_failures": r.impl_failures, "detail_mismatches": detail}
 
 
